@@ -601,6 +601,15 @@ def emit_module(program, traced):
                 em.w("return hash(self.key)")
                 em.ind -= 1
                 em.w("")
+        if cls.get("eq") == "raises":
+            # array-like: comparing it with anything does not yield a truth value
+            em.w("def __eq__(self, other):")
+            em.ind += 1
+            em.w("raise ValueError('the truth value of this comparison is ambiguous')")
+            em.ind -= 1
+            em.w("")
+            em.w("__hash__ = object.__hash__")
+            em.w("")
         if cls.get("falsy"):
             # container-like: empty, hence false in a boolean context
             em.w("def __len__(self):")
